@@ -356,6 +356,25 @@ def fixed_scenarios():
                     bin_tests=bt, overrides=[],
                     scripts=[{"id": "grace_5", "kind": "graceful", "ss": True, "sf": True, "capture": True}],
                     threads=2, signal_on=("SetupScriptStarted", 0.4, int(signal.SIGTERM))))
+    # two shutdown signals: the second one arrives while a test that ignores the first is still running and
+    # after other tests have already finished -- every finished test still has its one testcase in the final report
+    bt = {"alpha::t1": {}, "beta::t1": {}}
+    tests = []
+    for i in range(3):
+        name = f"d{i}_quick"
+        bt["alpha::t1"][name] = {"attempts": [mk_attempt(name, 1, "pass", r, quiet=True)]}
+        tests.append({"bin": "alpha::t1", "name": name, "kind": "pass", "ss": True, "sf": True,
+                      "selected": True, "plan": ["pass"]})
+    stub = mk_attempt("d9_stubborn", 1, "timeout", r, quiet=True)
+    stub.update(sleep=30, on_term="ignore")
+    bt["beta::t1"]["d9_stubborn"] = {"attempts": [stub]}
+    tests.append({"bin": "beta::t1", "name": "d9_stubborn", "kind": "timeout", "ss": True, "sf": True,
+                  "selected": True, "plan": ["timeout"]})
+    for k, (s1, s2) in enumerate(((signal.SIGINT, signal.SIGINT), (signal.SIGTERM, signal.SIGINT))):
+        out.append(dict(idx=20 + k, family="fixed", retries=0, ss=True, sf=True, fail_fast=False,
+                        tests=copy.deepcopy(tests), bin_tests=copy.deepcopy(bt), overrides=[], scripts=[], threads=4,
+                        signal_on=("TestFinished", 0.25, int(s1)), signal_again=(0.2, int(s2)),
+                        signal_variant="double"))
     # the same two text-carrying scenarios under combined capture (a libtest-json message format)
     import copy as _copy
     for k, fmt in ((0, "libtest-json"), (1, "libtest-json-plus")):
